@@ -223,6 +223,9 @@ func Run(cfg Config, body func()) *Result {
 func watchdogFire() {
 	buf := make([]byte, 1<<20)
 	n := runtime.Stack(buf, true)
+	if s := S; s != nil {
+		fmt.Fprintf(os.Stderr, "vsched: WATCHDOG state: hooked_ops=%d threads=%d inline=%d prefix=%v\n", s.seq, len(s.threads), s.inline, s.cfg.Prefix)
+	}
 	fmt.Fprintf(os.Stderr, "vsched: WATCHDOG: execution did not finish (unhooked blocking operation?)\n%s\n", buf[:n])
 	os.Exit(2)
 }
